@@ -216,11 +216,15 @@ impl XmlReader {
         doc: &mut RustDocument,
         child: Node<'n, 'n>,
     ) -> Result<(), WriterError> {
-        let schema = child
-            .children()
-            .find(|n| n.tag_name().name() == "schema")
-            .ok_or(WriterError::SchemaNotFound)?;
-        Self::read_xsd(schema, files, doc)?;
+        // a types section holds one schema element per namespace: all of them are read
+        let mut found = false;
+        for schema in child.children().filter(|n| n.tag_name().name() == "schema") {
+            found = true;
+            Self::read_xsd(schema, files, doc)?;
+        }
+        if !found {
+            return Err(WriterError::SchemaNotFound);
+        }
         Ok(())
     }
 
